@@ -111,6 +111,26 @@ impl<S: BitmapSlice + Send + Sync> PassthroughFs<S> {
         last
     }
 
+    /// Return `true` if every record of a `getdents64` buffer is "." or "..", i.e. if
+    /// `do_readdir` would not report any of them.
+    fn only_dot_entries(mut buf: &[u8]) -> bool {
+        while buf.len() >= size_of::<LinuxDirent64>() {
+            let dirent64 = LinuxDirent64::from_slice(&buf[..size_of::<LinuxDirent64>()])
+                .expect("fuse: unable to get LinuxDirent64 from slice");
+            let reclen = dirent64.d_reclen as usize;
+            // A malformed record is left to the caller.
+            if reclen < size_of::<LinuxDirent64>() || reclen > buf.len() {
+                return false;
+            }
+            let name = &buf[size_of::<LinuxDirent64>()..reclen];
+            if !(name.starts_with(CURRENT_DIR_CSTR) || name.starts_with(PARENT_DIR_CSTR)) {
+                return false;
+            }
+            buf = &buf[reclen..];
+        }
+        true
+    }
+
     /// Consume the cookie cached for `handle` and report whether it equals
     /// `offset`.  A match means the persistent directory fd is already
     /// positioned right after that entry and the next `getdents64` can start
@@ -265,6 +285,27 @@ impl<S: BitmapSlice + Send + Sync> PassthroughFs<S> {
                         buf.clear();
                     }
                 }
+            }
+
+            // A batch that holds nothing but "." and ".." is filtered out completely below, and
+            // the resulting empty reply would falsely signal end-of-directory although entries
+            // may follow (tiny reply buffers only): fetch the next batch instead.
+            while !buf.is_empty() && Self::only_dot_entries(&buf) {
+                // Safe because the kernel guarantees that it will only write to `buf` and we
+                // check the return value.
+                let res = unsafe {
+                    libc::syscall(
+                        libc::SYS_getdents64,
+                        dir.as_raw_fd(),
+                        buf.as_mut_ptr() as *mut LinuxDirent64,
+                        size as libc::c_int,
+                    )
+                };
+                if res < 0 {
+                    return Err(io::Error::last_os_error());
+                }
+                // Safe because we trust the value returned by kernel.
+                unsafe { buf.set_len(res as usize) };
             }
 
             // Both paths leave the fd right after the last entry in `buf`; remember that
